@@ -5,7 +5,9 @@ PID = "C15"
 CLAIM = True
 MANIFEST_TEXT = ("Lean 4 theorems for all element sizes, alignments, pool sizes, request counts, page sizes and all valid "
                  "allocate/deallocate histories, with the base addresses returned by operator new/mmap universally quantified: "
-                 "Pool slot geometry is sound (>=1 slot per chunk, slots fit, hold a T and the free-list pointer, aligned); slots are "
+                 "Pool slot geometry is sound (>=1 slot per chunk, slots fit, hold a T and the free-list pointer, aligned); the loop of "
+                 "Pool::grow with its bounds regenerated from the source threads exactly the slots 1..elements-1, the regenerated range "
+                 "test of Pool::free accepts exactly the addresses inside a chunk's storage; slots are "
                  "disjoint/aligned/inside their chunk; the invariant free list + live set = all slots exactly once is preserved, hence "
                  "allocate never returns a live block, a block is returned again only after it was freed, live blocks are pairwise "
                  "disjoint and aligned for T, ~Pool deletes every chunk exactly once; histories include the refused requests "
@@ -64,7 +66,7 @@ RULE = ("case = one allocator instance (kind x element type from 28 (sizeof,alig
         "op lines; non-trivial = every case whose oracle ran (unsupported configurations are trivial)")
 ASSUMPTIONS = [
     "the state machines in lean/DuneVerif/Model/C15.lean (intrusive pool IPool = transcription of Pool::grow/allocate/free; list model Pool proved equivalent; allocation list of the debug manager) are hand-written; their fidelity to the headers rests on this differential run, in which the driver executes the intrusive pool and cross-checks it against the list model",
-    "slot geometry, request validation and DebugAllocator page arithmetic are regenerated from the headers by tools/translators/tr_c15.py",
+    "slot geometry, request validation, DebugAllocator page arithmetic, the loop bounds of Pool::grow (pointer loop or index loop), the range test of Pool::free, the contents of the #if DEBUG_ALLOCATOR_KEEP branch of deallocate, the not_free bookkeeping and the destructor's walk are regenerated from the headers by tools/translators/tr_c15.py; statement shapes it does not understand make it fail (broken: translator)",
     "a formula rewritten in the source into a textually different one that agrees with the form the proofs were written against on the translator's whole grid (sizeof 1..130, alignof 1..128, ~30 pool sizes; counts around max_size; capacities around page multiples) is emitted in that known form, with the source text kept as a comment in Gen/C15.lean; any value difference on the grid emits the source's own expression",
     "LP64 target: sizeof(void*) = alignof(void*) = 8, size_t has 64 bits, alignof(std::max_align_t) = 16, page size 4096 in the corpus files",
     "operator new / malloc / aligned_alloc / mmap return disjoint, suitably aligned, usable memory (trusted, not modelled)",
